@@ -178,7 +178,7 @@ def run(ck, rng, tier, prop="C01"):
             for nm, k in (("resid_all", Tm.shape[1]), ("resid_half", (Tm.shape[1] + 1) // 2)):
                 Rk = np.array(o[nm])
                 ref = E0 - Tm[:, :k] @ Pm[:, :k].T
-                if Rk.shape != ref.shape or np.abs(Rk - ref).max() > 1e-8 * nrm * max(1, m):
+                if Rk.shape != ref.shape or np.abs(Rk - ref).max() > 1e-7 * nrm * max(1, m):
                     bad = ("residual_matrix", "GetResidualMatrix(%d components) differs from preprocessed data - T P' by %.3g" % (k, np.abs(Rk - ref).max() if Rk.shape == ref.shape else float("nan")))
                     break
                 if np.abs(Rk @ Pm[:, :k]).max() > tol * nrm * max(1, n):
